@@ -3,6 +3,7 @@
 -/
 import A5.Model.Geo
 import A5.Model.Serialization
+import A5.Model.Planar
 
 namespace A5.CellGeo
 open A5.F A5.Geo
@@ -66,21 +67,10 @@ def splitEdges (vs : List V2) (segments : Int) : List V2 :=
 def shiftRight : V2 := (getF Tables.SHIFT_RIGHT_BITS 0, getF Tables.SHIFT_RIGHT_BITS 1)
 def shiftLeft : V2 := (getF Tables.SHIFT_LEFT_BITS 0, getF Tables.SHIFT_LEFT_BITS 1)
 
-/-- `get_pentagon_vertices(resolution, quintant, anchor)` -/
+/-- `get_pentagon_vertices(resolution, quintant, anchor)`: the generic placement (Model/Planar.lean) on doubles with the module constants -/
 def pentagonVertices (resolution : Nat) (quintant : Nat) (a : Hilbert.Anchor) : List V2 :=
-  let p := mkShape (if Tables.TRIANGLE_MODE then triangleBase else pentagonBase)
-  let off : V2 := (Float.ofInt a.i, Float.ofInt a.j)
-  let translation := transformMat2 off (BS 0) (BS 2) (BS 1) (BS 3)
-  let fx := a.flips.1   -- true = YES
-  let fy := a.flips.2
-  let p := if !fx && fy then rotate180 p else p
-  let k := a.k
-  let bothOrNone := fx == fy          -- F == −2 or F == 2
-  let p := if (bothOrNone && k > 1) || (!bothOrNone && (k == 0 || k == 3)) then reflectY p else p
-  let p := if fx && fy then rotate180 p else if fx then translate p shiftLeft else if fy then translate p shiftRight else p
-  let p := translate p translation
-  let p := scaleShape p (1 / Float.ofNat (2 ^ resolution))
-  transformShape p quintant
+  Planar.place (α := Float) (if Tables.TRIANGLE_MODE then triangleBase else pentagonBase) (BS 0, BS 1, BS 2, BS 3) shiftLeft shiftRight
+    (QROT quintant 0, QROT quintant 1, QROT quintant 2, QROT quintant 3) resolution a
 
 def quintantShape (q : Nat) : List V2 := transformShape (mkShape triangleBase) q
 
